@@ -7,6 +7,7 @@
      pseudo_legal_applicable (Proofs/PseudoApplicable.v), undo_make (Proofs/UndoMove.v)   [C03]
      generated_is_accepted (Proofs/IplC05.v)                                              [C05]. *)
 From Coq Require Import NArith ZArith List Bool Lia.
+From Chess3 Require Import Proofs.LayoutNow.
 From Chess3 Require Import Base.Bits Base.Word Model.Types Model.Att Model.BoardDef Model.Board Model.Movegen.
 From Chess3 Require Import Spec.Geometry Spec.Chess Spec.Rep Spec.Applicable.
 From Chess3 Require Import Proofs.SuccLists Proofs.SuccCore Proofs.SuccCells Proofs.SuccFacts.
@@ -113,14 +114,14 @@ Theorem pseudo_legal_move_valid z b m :
   Rep b -> valid (abs b) = true -> is_pseudo_legal b m = true ->
   let '(b', t) := make z b m in undo z b' m t = b.
 Proof.
-  intros HR HV HI. apply C03_move_l; [exact HR|apply pseudo_legal_applicable_valid; assumption].
+  intros HR HV HI. apply C03_move_now_l; [exact HR|apply pseudo_legal_applicable_valid; assumption].
 Qed.
 
 Theorem generated_move_valid z b m :
   Rep b -> valid (abs b) = true -> In m (gen_all b) ->
   let '(b', t) := make z b m in undo z b' m t = b.
 Proof.
-  intros HR HV HG. apply C03_move_l; [exact HR|apply gen_applicable_valid; assumption].
+  intros HR HV HG. apply C03_move_now_l; [exact HR|apply gen_applicable_valid; assumption].
 Qed.
 
 (* a legal move is pseudo-legal for the engine, hence applicable *)
